@@ -114,6 +114,14 @@ Theorem C08_step_count_exists : forall x a, 0 < a -> 0 < x -> exists n, INR n * 
 Proof. exact step_count_exists. Qed.
 Print Assumptions C08_step_count_exists.
 
+(* (12) time never moves against the direction of integration: the times at the successive step boundaries of one call
+   are monotone in the direction sg of the call (both finishing modes, every stepper of the class), as long as the
+   call starts on the near side of the target with dt pointing towards it (which integrate_raw establishes) *)
+Theorem C08_time_monotone : forall stepper, stepper_ok stepper -> forall tmax exact fuel sg s,
+  inv tmax sg s -> mono sg (loop_ts stepper tmax exact fuel s).
+Proof. intros stepper H tmax exact fuel sg s. exact (loop_ts_monotone stepper H tmax exact fuel sg s). Qed.
+Print Assumptions C08_time_monotone.
+
 (* (11) the fuzz of (1) is the advertised one: the constants in reb_check_exit (regenerated from the C text on every
    run; the binary64 instance compared with the library uses these regenerated values) are 1e-12 relative, with the
    absolute fallback 1e-12 below 1e-200 *)
